@@ -262,6 +262,18 @@ func (e *vfCCExec) offers() chan vfOffer {
 	return e.cp.offers
 }
 
+// settle (real establisher only): after a dial that timed out the provider sleeps its back-off (random jitter) before
+// it dials again; states are taken when it is dialling again, so that what is enabled does not depend on the jitter.
+func (e *vfCCExec) settle() {
+	if e.fn == nil {
+		return
+	}
+	for i := 0; i < 120 && e.fn.lastFailed && !e.fn.waiting; i++ {
+		time.Sleep(time.Second)
+		synctest.Wait()
+	}
+}
+
 func (e *vfCCExec) liveIDs() []string {
 	m := e.mm.GetMuxConnections()
 	ids := make([]string, 0, len(m))
@@ -478,6 +490,7 @@ func vfRunCC(t *testing.T, job *vfCCJob) (out vfPoolOut) {
 					break
 				}
 				synctest.Wait()
+				e.settle()
 				e.consistency("after " + a)
 			}
 			if out.Err == "" {
